@@ -1,6 +1,7 @@
 import MidnightZK.Proofs.C20.Ipa
 import MidnightZK.Proofs.C20.IpaPoly
 import MidnightZK.Proofs.C20.Gadget
+import MidnightZK.Proofs.C20.Acc
 /-!
 # C20 — recursion and aggregation accept exactly the valid inner proofs
 Property theorems (helper lemmas live in `MidnightZK/Proofs/C20`).
@@ -313,5 +314,104 @@ theorem gadget_schedule_needs_no_challenge :
         { nProofs := 1, nCommitted := 1, lens := [[3]] } := by decide
 
 end Gadget
+
+/-! ## Part 3: accumulators (partial MSMs with named fixed-base scalars) -/
+section Accumulator
+variable {F G H : Type} [CommRing F] [AddCommGroup G] [Module F G] [AddCommGroup H] [Module F H]
+
+/-- `AssignedMsm::scale` / the `* r` of `Msm::accumulate_with_r`: scaling every scalar (variable
+and fixed-base part) scales the value of the MSM. -/
+theorem msm_scale_eval (fb : String → G) (r : F) (m : Msm F G) : (m.scale r).eval fb = r • m.eval fb :=
+  eval_scale fb r m
+
+/-- `accumulate_with_r` (the off-circuit `Msm` version and the in-circuit
+`scale` + `add_msm` version are the same function of the data): the result evaluates to
+`a + r·b`, with the fixed-base scalars merged key-wise, for all MSMs whose bases and scalars have
+equal length (what `Msm::new` asserts). -/
+theorem msm_accumulate_with_r_eval (fb : String → G) (a b : Msm F G) (r : F) (ha : a.WF) :
+    (a.accumulateWithR b r).eval fb = a.eval fb + r • b.eval fb :=
+  eval_accumulateWithR fb a b r ha
+
+/-- `Msm::collapse` / `AssignedMsm::collapse` does not change the value. -/
+theorem msm_collapse_eval (fb : String → G) (m : Msm F G) : m.collapse.eval fb = m.eval fb :=
+  eval_collapse fb m
+
+example : (Msm.accumulateWithR (F := ℤ) (G := ℤ) ⟨[5], [2], [("a", 1)]⟩ ⟨[7], [3], [("a", 4), ("b", 1)]⟩ 10).fixed
+    = [("a", 41), ("b", 10)] := by decide
+
+/-- `Accumulator::accumulate` preserves validity: if every accumulator satisfies the invariant
+`P(lhs) = Q(rhs)` for two linear maps (`P = e(·, [τ]₂)`, `Q = e(·, [1]₂)` in
+`Accumulator::check`), so does the accumulated one, for every value of the hash-derived `r` and
+any number of accumulators. (That an invalid member survives only for few `r` is the subject of
+C15.) -/
+theorem acc_accumulate_preserves_valid (P Q : G →ₗ[F] H) (fb : String → G) (accs : List (Acc F G)) (r : F)
+    (acc : Acc F G) (hacc : Acc.accumulate accs r = some acc)
+    (hwf : ∀ a ∈ accs, a.lhs.WF ∧ a.rhs.WF)
+    (hvalid : ∀ a ∈ accs, P (a.lhs.eval fb) = Q (a.rhs.eval fb)) :
+    P (acc.lhs.eval fb) = Q (acc.rhs.eval fb) := by
+  cases accs with
+  | nil => simp [Acc.accumulate] at hacc
+  | cons a t =>
+    simp only [Acc.accumulate, Option.some.injEq] at hacc
+    subst hacc
+    set l := t.zip ((powers r (a :: t).length).drop 1) with hl
+    have hmem : ∀ o ∈ l, o.1 ∈ t := fun o ho => (List.of_mem_zip (by rw [hl] at ho; exact ho)).1
+    have ha := hwf a (by simp)
+    obtain ⟨e1, e2⟩ := accumulateLoop_eval fb l a ha.1 ha.2
+      (fun o ho => hwf o.1 (by simp [hmem o ho]))
+    rw [e1, e2, map_add, map_add, hvalid a (by simp), map_list_sum, map_list_sum, List.map_map, List.map_map]
+    congr 2
+    apply List.map_congr_left
+    intro o ho
+    simp only [Function.comp, map_smul]
+    rw [hvalid o.1 (by simp [hmem o ho])]
+
+/-- Non-vacuity: two accumulators over `ℤ` with `P = id`, `Q = 2·`. -/
+example : (Acc.accumulate (F := ℤ) (G := ℤ) [⟨⟨[4], [1], []⟩, ⟨[2], [1], []⟩⟩, ⟨⟨[6], [1], []⟩, ⟨[3], [1], []⟩⟩] 5).map
+    (fun a => (a.lhs.bases, a.lhs.scalars, a.rhs.bases, a.rhs.scalars)) = some ([4, 6], [1, 5], [2, 3], [1, 5]) := by
+  decide
+
+end Accumulator
+
+section Expose
+variable {F G : Type}
+
+/-- The public-input encoding of an accumulator binds it: two accumulators of the same shape
+(same numbers of bases and scalars, same fixed-base names — all fixed by the verifier circuit)
+with the same `as_public_input` vector are equal, provided the point encoding is injective and
+of constant length. A verifier circuit that constrains its computed accumulator to the
+instance is therefore unsatisfiable for any other claimed accumulator. -/
+theorem expose_acc_binds (enc : G → List F) (n : Nat) (hn : ∀ a, (enc a).length = n)
+    (hinj : ∀ a b, enc a = enc b → a = b) (x y : Acc F G)
+    (h1 : x.lhs.bases.length = y.lhs.bases.length) (h2 : x.lhs.scalars.length = y.lhs.scalars.length)
+    (h3 : x.lhs.fixed.map (·.1) = y.lhs.fixed.map (·.1))
+    (h4 : x.rhs.bases.length = y.rhs.bases.length) (h5 : x.rhs.scalars.length = y.rhs.scalars.length)
+    (h6 : x.rhs.fixed.map (·.1) = y.rhs.fixed.map (·.1))
+    (h : x.asPublicInput enc = y.asPublicInput enc) : x = y := by
+  have fixed_eq : ∀ (a b : List (String × F)), a.map (·.1) = b.map (·.1) → a.map (·.2) = b.map (·.2) → a = b := by
+    intro a
+    induction a with
+    | nil => intro b hb _; cases b with | nil => rfl | cons _ _ => simp at hb
+    | cons p a ih =>
+      intro b hb hv
+      cases b with
+      | nil => simp at hb
+      | cons q b =>
+        simp only [List.map_cons, List.cons.injEq] at hb hv
+        rw [ih b hb.2 hv.2, Prod.ext hb.1 hv.1]
+  simp only [Acc.asPublicInput, Msm.asPublicInput, List.append_assoc] at h
+  obtain ⟨b1, r1⟩ := flatMap_enc_inj enc n hn hinj _ _ _ _ h1 h
+  have r1' := List.append_inj r1 h2
+  have hf1 : (x.lhs.fixed.map (·.2)).length = (y.lhs.fixed.map (·.2)).length := by
+    have := congrArg List.length h3; simpa using this
+  have r2 := List.append_inj r1'.2 hf1
+  obtain ⟨b2, r3⟩ := flatMap_enc_inj enc n hn hinj _ _ _ _ h4 r2.2
+  have r3' := List.append_inj r3 h5
+  obtain ⟨⟨xb, xs, xf⟩, ⟨xb', xs', xf'⟩⟩ := x
+  obtain ⟨⟨yb, ys, yf⟩, ⟨yb', ys', yf'⟩⟩ := y
+  simp only at *
+  rw [b1, b2, r1'.1, r3'.1, fixed_eq _ _ h3 r2.1, fixed_eq _ _ h6 r3'.2]
+
+end Expose
 
 end MidnightZK.C20
